@@ -115,6 +115,11 @@ func (ms *memstore) Add(bucket string, filename string, contents []byte, meta *s
 	}
 
 	b := ms.getBucket(bucket)
+	for b == nil {
+		// the bucket was deleted between CreateBucket above and here
+		_ = ms.CreateBucket(bucket)
+		b = ms.getBucket(bucket)
+	}
 	b.mu.Lock()
 	defer b.mu.Unlock()
 	b.files.ReplaceOrInsert(&memFile{
@@ -134,6 +139,10 @@ func (ms *memstore) UpdateMeta(bucket string, filename string, meta *storage.Obj
 	meta.Metageneration = metagen
 
 	b := ms.getBucket(bucket)
+	if b == nil {
+		// the bucket was deleted meanwhile
+		return os.ErrNotExist
+	}
 	b.mu.Lock()
 	defer b.mu.Unlock()
 	b.files.ReplaceOrInsert(&memFile{
